@@ -484,3 +484,33 @@ func doShrink(t *testing.T, sc *Scenario) {
 	}
 	fmt.Printf("SHRINK: %d -> %d tape cells in %d attempts\n", len(rf.Tape), len(best), attempts)
 }
+
+// inBubble runs f inside a synctest bubble (for scenarios that are normally
+// single-threaded but have a variant needing goroutines and fake time).
+func inBubble(rc *RunCtx, f func()) {
+	var pv any
+	func() {
+		defer func() {
+			if r := recover(); r != nil {
+				msg := fmt.Sprint(r)
+				if strings.Contains(msg, "blocked goroutines remain") || strings.Contains(msg, "deadlock:") {
+					return
+				}
+				pv = r
+			}
+		}()
+		synctest.Test(rc.T, func(t *testing.T) {
+			defer func() {
+				if r := recover(); r != nil {
+					pv = fmt.Sprintf("%v\n%s", r, debug.Stack())
+				}
+			}()
+			start := time.Now()
+			f()
+			rc.Res.SimMS += time.Since(start).Milliseconds()
+		})
+	}()
+	if pv != nil {
+		panic(pv)
+	}
+}
